@@ -780,4 +780,97 @@ def loadCsvCallSpec {α : Type} (m : Meta) (files : List (DataFile α)) (acq : O
     (tbl : List Name) (o : CallOpts) : Except Err (Returned Rat) :=
   (loadCsvSpec m files (if o.useAcqV && acq.isSome then some tbl else none) o.methodsV).map (retOf o.fullV)
 
+/-! ## 10. a process: several imports one after another
+
+`pewlib.io.agilent` assigns no module global after import, memoises nothing and has no mutable default
+argument: what a call returns depends on its arguments and on the files as they are on disk when it is
+made, and on nothing that an earlier call (or the caller, editing what an earlier call returned) left
+behind.  A process is therefore modelled as the list of its calls, each evaluated on the `Disk` of its
+moment. -/
+
+def Returned.map {β γ : Type} (f : β → γ) (r : Returned β) : Returned γ :=
+  { names := r.names, img := r.img.map (·.map (·.map f)), params := r.params }
+
+inductive EntryPoint | loadBinary | loadCsv | load
+  deriving DecidableEq, Repr
+
+/-- what an import reads: the batch as it is on disk at the moment of the call -/
+structure Disk (α : Type) where
+  mt : Meta                          -- directory listing, BatchLog.xml, BatchLog.csv, sample list of AcqMethod.xml
+  files : List (DataFile α)          -- the data directories
+  xs : List XMass                    -- MSTS_XSpecific.xml of the first data file
+  xadd : Option (Bool × List XAdd)   -- MSTS_XAddition.xml, when it exists
+  acq : Option (List Name)           -- the element names of AcqMethod.xml (`acqElements`), when it exists
+
+/-- one call of an entry point with the options `o` on the disk `d`.  Pixel values are encoded into one type `γ`
+(`load` returns either import): `enc` for the binary import's values, `encQ` for the CSV import's. -/
+def callOn {α γ : Type} (enc : α → γ) (encQ : Rat → γ) (divide : List MassInfo → Image α → Image α)
+    (d : Disk α) (fn : EntryPoint) (o : CallOpts) : Except Err (Returned γ) :=
+  let bin := (loadBinaryCall d.mt d.files (massInfo d.xs d.xadd) divide o).map (Returned.map enc)
+  let csv := (loadCsvCall d.mt d.files d.acq o).map (Returned.map encQ)
+  match fn with
+  | .loadBinary => bin
+  | .loadCsv => csv
+  | .load => load bin csv
+
+/-- its specification -/
+def callOnSpec {α γ : Type} (enc : α → γ) (encQ : Rat → γ) (divide : List MassInfo → Image α → Image α)
+    (d : Disk α) (fn : EntryPoint) (o : CallOpts) : Except Err (Returned γ) :=
+  let tbl := massInfoSpec d.xs d.xadd
+  let bin := (loadBinaryCallSpec d.mt d.files tbl divide o).map (Returned.map enc)
+  let csv := (loadCsvCallSpec d.mt d.files d.acq (tbl.map (·.str)) o).map (Returned.map encQ)
+  match fn with
+  | .loadBinary => bin
+  | .loadCsv => csv
+  | .load => load bin csv
+
+/-- the calls of a process, in order, each on the disk as it is at that call -/
+def process {α γ : Type} (enc : α → γ) (encQ : Rat → γ) (divide : List MassInfo → Image α → Image α)
+    (calls : List (Disk α × EntryPoint × CallOpts)) : List (Except Err (Returned γ)) :=
+  calls.map (fun c => callOn enc encQ divide c.1 c.2.1 c.2.2)
+
+def processSpec {α γ : Type} (enc : α → γ) (encQ : Rat → γ) (divide : List MassInfo → Image α → Image α)
+    (calls : List (Disk α × EntryPoint × CallOpts)) : List (Except Err (Returned γ)) :=
+  calls.map (fun c => callOnSpec enc encQ divide c.1 c.2.1 c.2.2)
+
+/-- the hypotheses under which an import of the disk `d` with the collection methods `methods` is described by
+its specification: the instrument layout in every data file that has its binaries (`R` scans, `k` masses),
+XAddition indices inside the mass table, BatchLog.csv texts that fit their columns, distinct numbers in the
+data-directory names, well-formed exports of the batch's shape, and a method file that lists the batch's own
+mass table -/
+structure Disk.Ok {α : Type} (d : Disk α) (methods : List Method) (R k : Nat) : Prop where
+  hk : d.xs.length = k
+  hidx : ∀ msms rows, d.xadd = some (msms, rows) → ∀ a ∈ rows, 1 ≤ a.index ∧ a.index ≤ d.xs.length
+  hbin : ∀ f ∈ d.files, f.hasBinary = true → ∃ bc, Layout R k bc f.scans f.profile
+  hcsvlog : ∀ rows, d.mt.csv = some rows →
+    ∀ r ∈ rows, (r.result.take 4 = pass → r.result = pass) ∧ r.file.length ≤ 264
+  hnum : ∀ a ∈ dataDirs d.mt.listing, ∀ b ∈ dataDirs d.mt.listing, digitsVal a = digitsVal b → a = b
+  hscan : 2 ≤ R
+  hexp : ∀ f ∈ d.files, ∀ c, f.csv = some c →
+    CsvWF c ∧ c.header.length = k + 1 ∧ c.rows.length = R ∧ (c.header.head?).map validName = some timeName
+  hacq : ∀ ns, d.acq = some ns → ns = (massInfoSpec d.xs d.xadd).map (·.str)
+
+/-- two directory states that differ only in the ORDER in which the directory is listed -/
+structure Meta.SameUpToListing (m₁ m₂ : Meta) : Prop where
+  perm : m₁.listing.Perm m₂.listing
+  xml : m₁.xml = m₂.xml
+  csv : m₁.csv = m₂.csv
+  acq : m₁.acq = m₂.acq
+
+/-! ### what state kept between calls would do (regression model for the seeded change C02-c3) -/
+
+def memoGet {κ β : Type} [DecidableEq κ] (k : κ) : List (κ × β) → Option β
+  | [] => none
+  | (k', v) :: rest => if k' = k then some v else memoGet k rest
+
+/-- a process whose `load_binary` keeps the mass table it has read, per `key` of the disk (C02-c3: the key is
+the path of MSTS_XSpecific.xml — every batch written to one path has the same key): a later import whose key
+was seen before decodes and names its image with the remembered table -/
+def processMemo {α κ : Type} [DecidableEq κ] (key : Disk α → κ) (divide : List MassInfo → Image α → Image α) :
+    List (κ × Option (List MassInfo)) → List (Disk α × CallOpts) → List (Except Err (Returned α))
+  | _, [] => []
+  | cache, (d, o) :: rest =>
+    let tbl := (memoGet (key d) cache).getD (massInfo d.xs d.xadd)
+    loadBinaryCall d.mt d.files tbl divide o :: processMemo key divide ((key d, tbl) :: cache) rest
+
 end Pew.Agilent
